@@ -355,42 +355,18 @@ structure Act where
   error : Outcome
   deriving Repr
 
-/-- `d.get(k)` on a Python dict kept as an association list in insertion order -/
-def aget {α : Type} (k : String) : List (String × α) → Option α
-  | [] => none
-  | (k', v) :: rest => if k' = k then some v else aget k rest
-
-/-- `d[k] = v`: an existing key keeps its position and gets the new value; a new key is appended -/
-def aset {α : Type} (k : String) (v : α) : List (String × α) → List (String × α)
-  | [] => [(k, v)]
-  | (k', v') :: rest => if k' = k then (k, v) :: rest else (k', v') :: aset k v rest
-
-/-- `execute_handlers_once`: `outcomes: dict[HandlerId, Outcome] = {}` and, for every handler of the plan
-    in order, `outcomes[handler.id] = outcome` — keyed by the ID only: when two different functions
-    carry one id (both selected: the dedup key is `(id(fn), id)`), the later outcome OVERWRITES the
-    earlier one. -/
-def collectOutcomes (act : Handler → Act) (d : List (String × Outcome)) : List Handler → List (String × Outcome)
-  | [] => d
-  | h :: rest => collectOutcomes act (aset h.id (act h).error d) rest
-
-/-- the LAST handler of the list carrying the id `i` (the one whose outcome the dict ends up with) -/
-def lastOfId : List Handler → String → Option Handler
-  | [], _ => none
-  | h :: t, i =>
-      match lastOfId t i with
-      | some x => some x
-      | none => if h.id = i then some h else none
-
-/-- `serve_admission_request` after the cause is built: the selected handlers run in registry order
-    (`lifecycles.all_at_once`); `warnings` is one shared list appended to in that order; `outcomes`
-    is the id-keyed dict of `execute_handlers_once`, and `build_response` reads its values; the
-    response carries the JSON patch of the final patch object. -/
+/-- `serve_admission_request` after the cause is built (code after 2903555): the selected handlers are
+    executed ONE BY ONE in registry order, each through its own `execute_handlers_once`, and their
+    outcomes are kept per handler under the key `(index, id)` — so `build_response`, which only reads
+    the values, sees exactly one outcome per selected handler, in order, also when two different
+    functions share an id. `warnings` is one shared list appended to in that order; the response
+    carries the JSON patch of the final patch object. -/
 def serve {Op : Type} (fromDiff : J → J → List Op) (hs : List (Handler × Bool)) (c : Cause)
     (act : Handler → Act) (body : J) (patch : List (String × J)) (fns : List Fn) :
     Except DictErr (Response Op) :=
   let sel := select hs c
   match asJsonPatch fromDiff body patch fns with
-  | .ok ops => .ok (buildResponse ((collectOutcomes act [] sel).map (·.2)) (sel.flatMap (fun h => (act h).warnings)) ops)
+  | .ok ops => .ok (buildResponse (sel.map (fun h => (act h).error)) (sel.flatMap (fun h => (act h).warnings)) ops)
   | .error e => .error e
 
 /-! ## the managed webhook configuration (`build_webhooks`) as far as operations are concerned -/
